@@ -1,9 +1,16 @@
 import PsyVerif.Model.MiniFIO
 import PsyVerif.Model.RegionData
-/-! S-expression reader for `RegionData.RStmt` (MiniF statements plus `(while c body)`).
+/-! S-expression reader for `RegionData.RStmt` (MiniF statements plus `(while c body)` and
+`(opaque ((rw x arr)|(rd e)|(wr x arr) ...) body)`).
 Used by the drivers only; never imported by proofs. -/
 namespace RegionData
 open Proto MiniF
+
+def parseAcc : Sexp → Option Acc
+  | .list [.atom "rw", x, a] => do some (.rw (← x.nat?) ((← a.nat?) == 1))
+  | .list [.atom "rd", e] => do some (.rd (← parseExpr e))
+  | .list [.atom "wr", x, a] => do some (.wr (← x.nat?) ((← a.nat?) == 1))
+  | _ => none
 
 partial def parseRStmt : Sexp → Option RStmt
   | .list [.atom "skip"] => some .skip
@@ -19,6 +26,7 @@ partial def parseRStmt : Sexp → Option RStmt
   | .list [.atom "loop", v, lo, hi, st, b] => do
       some (.loop (← v.nat?) (← parseExpr lo) (← parseExpr hi) (← parseExpr st) (← parseRStmt b))
   | .list [.atom "while", c, b] => do some (.whileDo (← parseExpr c) (← parseRStmt b))
+  | .list [.atom "opaque", acc, b] => do some (.code (← acc.items.mapM parseAcc) (← parseRStmt b))
   | _ => none
 
 /-- iteration bound used by the drivers for `DO WHILE` (no generated loop reaches it) -/
@@ -26,7 +34,8 @@ def driverFuel : Nat := 2000
 
 def parseItem : Sexp → Option Item
   | .list [.atom "s", p] => (parseRStmt p).map Item.stmt
-  | .list [.atom "x"] => some .excluded
+  | .list [.atom "x"] => some (.excluded .skip)
+  | .list [.atom "x", p] => (parseRStmt p).map Item.excluded
   | _ => none
 
 end RegionData
